@@ -90,6 +90,13 @@ impl FeedCfg {
 		} else {
 			r.range(0, 18) as i32 - 9
 		};
+		// extreme magnitudes (double precision, fault configurations): everything the methods compute is scale-free, an
+		// absolute constant hidden in a guard or tolerance is not
+		let scale_exp = if !cfg!(feature = "value_type_f32") && !fault_free && r.chance(0.08) {
+			(20 + r.range(0, 40) as i32) * if r.chance(0.5) { 1 } else { -1 }
+		} else {
+			scale_exp
+		};
 		FeedCfg {
 			regimes,
 			scale_exp,
